@@ -699,7 +699,14 @@ class Interp:
             term = ('Add',) + tuple(sorted((va, vb)))
         elif base == 'Sub':
             r = D.iv_sub(ia, ib)
+            rel_ab = D.rel_get(st, vb, va)
+            if rel_ab and not (rel_ab - frozenset('<=')):
+                r = (max(r[0], 0 if '=' in rel_ab else 1), r[1])        # b <= a is a fact of this path: the difference is not negative
             aff = D.aff_add(D.aff_of(va), D.aff_of(vb), -1)
+            for (y_, c_, q_, r_) in D.TRIPLES.get(vb, ()):
+                if r_ == vb and (y_ == va or (D.aff_of(y_).key() == D.aff_of(va).key() and D.aff_of(y_).c0 == D.aff_of(va).c0 and not D.aff_of(y_).mod)):
+                    aff = D.aff_scale(D.aff_of(q_), c_)      # y - y % c is c * (y / c), exactly
+                    break
             term = ('Sub', va, vb)
         elif base == 'Mul':
             r = D.iv_mul(ia, ib)
@@ -2004,6 +2011,26 @@ class Interp:
                 s4 = s3.clone() if i < len(pieces) - 1 else s3
                 if D.set_iv(s4, vid, l, h):
                     out.append((t['otherwise'], s4))
+        # a branch on `x == c` / `x != c` with c strictly inside the range of x: the "not equal" side is two ranges (below and above c), exactly
+        # as a `match x { c => .., _ => .. }` is handled above
+        tm = D.TERM.get(vid)
+        if tm is not None and tm[0] in ('Eq', 'Ne') and isinstance(tm[1], int) and isinstance(tm[2], int) and len(out) <= 4:
+            x, c = (tm[1], tm[2]) if tm[2] in D.CONSTVAL else ((tm[2], tm[1]) if tm[1] in D.CONSTVAL else (None, None))
+            if x is not None and x not in D.CONSTVAL:
+                cval = D.CONSTVAL[c]
+                new = []
+                for tgt, s in out:
+                    bv = D.get_iv(s, vid)
+                    xl, xh = D.get_iv(s, x)
+                    if bv[0] == bv[1] and ((bv[0] == 1) == (tm[0] == 'Ne')) and xl < cval < xh and xl != -D.INF and xh != D.INF:
+                        s_lo = s.clone()
+                        if D.set_iv(s_lo, x, xl, cval - 1):
+                            new.append((tgt, s_lo))
+                        if D.set_iv(s, x, cval + 1, xh):
+                            new.append((tgt, s))
+                        continue
+                    new.append((tgt, s))
+                out = new
         return out
 
     # ------------------------------------------------------------------ calls
@@ -2128,7 +2155,7 @@ class Interp:
         if clo[0] == 'fn':
             if clo[1] in self.bodies:
                 return self.call_body(st, clo[1], list(args), site)
-            return self.do_call(st, clo[1], clo[1], list(args), None, site)
+            return self.do_call(st, clo[1], clo[1], list(args), None, dict(site, callee=clo[1]) if isinstance(site, dict) else site)
         if clo[0] != 'clo' or clo[1] not in self.bodies:
             self.note('call of unknown closure')
             return None
